@@ -194,7 +194,7 @@ I = ("ident", "inputs")
 # patterns the listener is expected to handle (sound) and patterns that are known defects
 HANDLED = ["dot", "index", "alias", "alias-chain", "iife", "fdecl-direct", "shadow-inputs", "shadow-alias", "nested",
            "computed-on-value", "string-mention", "kill", "cond-expr", "if-stmt", "paren-value", "fexpr-param",
-           "reserved-as-string-index", "numeric-index", "inner-kill"]
+           "reserved-as-string-index", "numeric-index", "inner-kill", "nested-shadow"]
 DEFECTS = {
     "var-init-alias": "miss",          # var x = inputs; x.k
     "paren-object": "miss",            # (inputs).k
@@ -312,6 +312,24 @@ class Gen:
             self.pre += [("varDecl", x), ("assign", x, I), ("fdecl", f, [x], [("ret", self.access(("ident", x), k))])]
             self.handled_keys.discard(k)
             return ("call", ("ident", f), [("dot", I, k0)])
+        if name == "nested-shadow":
+            # a function declared INSIDE another function shadows `inputs` (or an alias) with a parameter; the outer function
+            # reads inputs afterwards: the shadowing must end with the inner declaration
+            outer, pick, n, t = self.fresh("outer"), self.fresh("pick"), self.fresh("n"), self.fresh("t")
+            k0 = self.key(IDENT_KEYS, False) or "a"
+            kz = self.key(IDENT_KEYS, False) or "b"
+            self.uses.append(("dot", k0))
+            self.handled_keys.discard(kz)
+            if rng.random() < 0.5:
+                shadowed, obj, pre = "inputs", I, []
+            else:
+                shadowed = self.fresh("x")
+                obj, pre = ("ident", shadowed), [("varDecl", shadowed), ("assign", shadowed, I)]
+            self.pre += pre + [("fdecl", outer, [n], [
+                ("fdecl", pick, [shadowed], [("ret", self.access(("ident", shadowed), kz))]),
+                ("varInit", t, ("call", ("ident", pick), [("dot", I, k0)])),
+                ("ret", self.access(obj, k))])]
+            return ("call", ("ident", outer), [("num", rng.randint(0, 9))])
         if name == "nested":
             k0 = self.key(IDENT_KEYS, False) or "a"
             self.uses.append(("dot", k0))
@@ -496,3 +514,50 @@ def node_reads(codes: list[str], timeout: float = 120) -> list[dict]:
     res = json.loads(p.stdout)
     res.sort(key=lambda r: r["id"])
     return res
+
+
+# ------------------------------------------------------------------------------------------------
+# interpolated strings: several placeholders in one string
+# ------------------------------------------------------------------------------------------------
+def gen_interpolated(rng: random.Random, allow_defects: bool, shape=None):
+    """a string with 2-3 placeholders mixing parameter references and JavaScript (both orders).
+    returns dict(text, parts=[("ref", text, sym, segs) | ("js", prog dict)], patterns, order)"""
+    shape = shape or [rng.choice(["ref", "js"]) for _ in range(rng.randint(2, 3))]
+    if "js" not in shape:
+        shape[rng.randrange(len(shape))] = "js"
+    parts, patterns, order, pieces = [], [], [], [rng.choice(["", "pre-", "a "])]
+    for kind in shape:
+        if kind == "ref":
+            t, sym, segs = gen_paramref(rng)
+            segs = [sg for sg in segs if not (sg[0] == "k" and ("'" in sg[1] or '"' in sg[1]))]
+            text = sym + "".join("." + v if kd == "d" else (f"[{v}]" if kd == "x" else "['" + v + "']") for kd, v in segs)
+            parts.append(("ref", "$(" + text + ")", sym, segs))
+            pieces.append("$(" + text + ")")
+        else:
+            names = [rng.choice(list(DEFECTS))] if (allow_defects and rng.random() < 0.3) else [rng.choice(HANDLED)]
+            p = gen_program(rng, allow_defects, names)
+            parts.append(("js", p))
+            patterns += p["patterns"]
+            order += p["order"]
+            pieces.append(expression_text(p["kind"], p["body"], rng))
+        pieces.append(rng.choice(["", "_", " mid ", ".txt", "-"]))
+    return {"text": "".join(pieces), "parts": parts, "patterns": patterns, "order": order}
+
+
+def interp_line(context_key: str, parts) -> str:
+    toks = ["interp", hx(context_key)]
+    for i, p in enumerate(parts):
+        if i:
+            toks.append("|")
+        if p[0] == "ref":
+            toks += ["R", hx(p[2])]
+            for kind, v in p[3]:
+                toks += [kind, hx(v) if kind != "x" else str(v)]
+        else:
+            toks += ["J"] + enc_list(as_program(p[1]["kind"], p[1]["body"]))
+    return " ".join(toks)
+
+
+def interp_codes(parts) -> list[str]:
+    """the text after `$` of every placeholder, for the node-side evaluation"""
+    return [(p[1][1:] if p[0] == "ref" else expression_text(p[1]["kind"], p[1]["body"])[1:]) for p in parts]
